@@ -25,10 +25,36 @@ class Src:
         self.log.append(('end',))
 
 
+class SrcDS(lazy_dataset.Dataset):
+    """the same source as a Dataset, so that the bucketing stage can be built through the method API
+    (`batch_dynamic_time_series_bucket`) and iterated through copies"""
+
+    def __init__(self, lens, log):
+        self.lens, self.log = lens, log
+
+    def copy(self, freeze=False):
+        return SrcDS(self.lens, self.log)
+
+    @property
+    def indexable(self):
+        return False
+
+    @property
+    def ordered(self):
+        return True
+
+    def __len__(self):
+        return len(self.lens)
+
+    def __iter__(self, with_key=False):
+        return Src.__iter__(self)
+
+
 def run_impl(cfg):
     common.gc_point()
     log = []
-    src = Src(cfg['lens'], log)
+    view = cfg.get('view', 'direct')
+    src = Src(cfg['lens'], log) if view == 'direct' else SrcDS(cfg['lens'], log)
     kw = dict(batch_size=cfg['batch'], len_key='len', max_padding_rate=cfg['rate'],
               max_total_size=cfg['maxTotal'], expiration=cfg['expiration'],
               max_buffered_examples=cfg['maxBuffered'], drop_incomplete=cfg['drop'],
@@ -39,7 +65,11 @@ def run_impl(cfg):
             'expiration': kw['expiration'], 'max_buffered_examples': kw['max_buffered_examples'],
             'drop_incomplete': kw['drop_incomplete'], 'sort_key': kw['sort_key'], 'reverse_sort': kw['reverse_sort'],
             'batch_size': kw['batch_size'], 'len_key': 'len', 'max_padding_rate': kw['max_padding_rate'],
-            'max_total_size': kw['max_total_size']})
+            'max_total_size': kw['max_total_size']}) if view == 'direct' else src.batch_dynamic_time_series_bucket(**kw)
+        if view == 'copy':
+            ds = ds.copy()
+        elif view == 'freeze':
+            ds = ds.copy(freeze=True)
         for b in ds:
             log.append(('batch', [e['id'] for e in b]))
     passes = []
@@ -120,6 +150,10 @@ def oracle(cfg, passes, log):
     return out
 
 
+# how the bucketing dataset is built and reached: constructor, method API, copy(), copy(freeze=True)
+VIEWS = ['direct', 'method', 'copy', 'freeze']
+
+
 def grid(tier, rng):
     alphabet = [1, 2, 3, 5, 8]
     maxlen = 4 if tier == 'quick' else 6
@@ -143,6 +177,7 @@ def grid(tier, rng):
         if rng.random() < 0.2:
             c['sort'] = 'len'
             c['reverse'] = rng.random() < 0.5
+        c['view'] = VIEWS[len(cfgs) % len(VIEWS)]
         cfgs.append(c)
     # the witness of the repaired defect F9 and the doctest configuration always run first
     cfgs.insert(0, dict(num=1, den=2, rate=0.5, batch=3, maxTotal=10, expiration=None, maxBuffered=None, drop=False, lens=[4, 6]))
